@@ -125,6 +125,27 @@ func isClearOn(ins ssa.Instruction, f *types.Var) (*ssa.Call, bool) {
 	if !ok {
 		return nil, false
 	}
+	// maps.DeleteFunc(m, func(k, v) bool { …; return true }) removes every entry as well
+	if strings.HasPrefix(ir.CalleeName(&call.Call), "maps.DeleteFunc") && len(call.Call.Args) == 2 && chk.LoadsField(call.Call.Args[0], f) {
+		var yf *ssa.Function
+		switch y := call.Call.Args[1].(type) {
+		case *ssa.MakeClosure:
+			yf = y.Fn.(*ssa.Function)
+		case *ssa.Function:
+			yf = y
+		}
+		if yf != nil {
+			all := true
+			for _, r := range ir.Returns(yf) {
+				if k, isK := ir.ReturnResult(r, 0).(*ssa.Const); !isK || k.Value == nil || k.Value.String() != "true" {
+					all = false
+				}
+			}
+			if all {
+				return call, true
+			}
+		}
+	}
 	b, isB := call.Call.Value.(*ssa.Builtin)
 	if !isB || b.Name() != "clear" || len(call.Call.Args) != 1 {
 		return nil, false
@@ -330,6 +351,23 @@ func ruleReserveRelease(c *chk.Ctx, d *dispatchModel) {
 				}
 			}
 		}
+		// the mark may have been chosen into a local on an earlier branch and be stored with the
+		// other members: the way that yields a mark gives the predicate
+		if _, isPhi := st.Val.(*ssa.Phi); isPhi && X == nil {
+			for _, w := range storedWays(c, st, d.responses) {
+				if ir.IsNilConst(w.val) {
+					continue
+				}
+				for _, cd := range w.conds {
+					if x, eq, ok := ir.NilCompare(cd.V); ok && eq == cd.Truth {
+						if _, fv, ok := taskFieldLoad(c, x); ok {
+							X = fv
+							markPos = st.Pos()
+						}
+					}
+				}
+			}
+		}
 	})
 	// or, instead of marking the responses that were never executed, the builder lists the ids
 	// of those that were: an append of the response's id to a list that travels with the
@@ -476,6 +514,79 @@ func ruleReserveRelease(c *chk.Ctx, d *dispatchModel) {
 			}
 		}
 		okGov = fromList
+	}
+	if !okGov && listField < 0 {
+		// the ids to release may first be collected into a local list (outside the lock) and
+		// released in a second loop: then every append to that list is governed by the mark, the
+		// element appended is a response's id, and the second loop releases every element
+		kindsOf := func(cs []ir.Cond) []string {
+			var kinds []string
+			for _, cd := range cs {
+				if isLoopCond(cd) || isLenCond(cd) {
+					continue
+				}
+				if x, eq, ok := ir.NilCompare(cd.V); ok && chk.LoadsField(x, c.M.JErr) {
+					if eq == cd.Truth {
+						kinds = append(kinds, "mark==nil")
+					} else {
+						kinds = append(kinds, "mark!=nil")
+					}
+					continue
+				}
+				if x, _, ok := ir.NilCompare(cd.V); ok {
+					if _, isParam := ir.NormCell(x).(*ssa.Parameter); isParam {
+						continue
+					}
+				}
+				kinds = append(kinds, "other")
+			}
+			return kinds
+		}
+		if ci, isCI := rel.(ssa.CallInstruction); isCI && len(kindsOf(ir.CondsAt(rel.Block()))) == 0 {
+			for _, a := range ci.Common().Args {
+				u, isU := c.P.Canon(a).(*ssa.UnOp)
+				if !isU {
+					continue
+				}
+				ia, isIA := u.X.(*ssa.IndexAddr)
+				if !isIA {
+					continue
+				}
+				if sl, isSl := ia.X.Type().Underlying().(*types.Slice); !isSl || sl.Elem().String() != "string" {
+					continue
+				}
+				all, some := true, false
+				for _, src := range c.P.Sources(ia.X) {
+					if ir.IsNilConst(src) {
+						continue
+					}
+					app, isCall := src.(*ssa.Call)
+					b, isB := ssa.Value(nil), false
+					if isCall {
+						b, isB = app.Call.Value.(*ssa.Builtin)
+					}
+					if !isCall || !isB || b.Name() != "append" || len(app.Call.Args) != 2 {
+						all = false
+						continue
+					}
+					isID := false
+					els, _ := c.P.ElementValues(app.Call.Args[1])
+					for _, e := range els {
+						if cv, isCv := e.(*ssa.Convert); isCv && chk.LoadsField(cv.X, c.M.JID) {
+							isID = true
+						}
+					}
+					ks := kindsOf(ir.CondsAt(app.Block()))
+					if !isID || len(ks) != 1 || ks[0] != "mark==nil" {
+						all = false
+					}
+					some = true
+				}
+				if all && some {
+					okGov = true
+				}
+			}
+		}
 	}
 	c.Check(okGov, "PAIR.release", rel.Parent(), "release governed by the executed mark", rel.Pos(), "the release runs exactly for responses not marked as never executed (a rejected duplicate cannot cancel its predecessor)",
 		"the delivery-time release is not governed exactly by the executed mark")
